@@ -372,7 +372,7 @@ void set_load_object_limits (int n) {
  */
 object_t* load_object (const char *mudlib_filename, const char *pre_text) {
 
-  int f;
+  int f, legal;
   program_t *prog;
   object_t *ob, *save_command_giver = command_giver;
   svalue_t *mret;
@@ -399,7 +399,13 @@ object_t* load_object (const char *mudlib_filename, const char *pre_text) {
   (void) strncat (real_name, ".c", sizeof(real_name) - strlen(real_name) - 1);
 
   opt_trace(TT_COMPILE|1, "load_object: \"%s\"", real_name);
-  if (stat (real_name, &c_st) == -1)
+  /*
+   * Check that it's a legal name before touching the file system: stat() on a
+   * name with ".." would tell whether files outside the mudlib exist. An illegal
+   * name is treated like a file that does not exist (it may still be virtual).
+   */
+  legal = legal_path (real_name);
+  if (!legal || stat (real_name, &c_st) == -1)
     {
       svalue_t *v;
 
@@ -420,24 +426,11 @@ object_t* load_object (const char *mudlib_filename, const char *pre_text) {
           num_objects_this_thread--;
           return ob;
         }
-      else if (!pre_text)
+      else if (!pre_text || !legal)
         {
           num_objects_this_thread--;
           return 0;
         }
-    }
-  else
-    {
-      /*
-      * Check if it's a legal name.
-      */
-      if (!legal_path (real_name))
-        {
-          debug_message ("Illegal pathname: /%s\n", real_name);
-          error ("*Illegal path name '/%s'.", real_name);
-          return 0;
-        }
-      opt_trace (TT_COMPILE|2, "legal_path passed: \"%s\"", real_name);
     }
 
   /* Get the program by loading from binary or compiling from the source */
